@@ -24,7 +24,7 @@ func init() {
 var c09Ns = []int{1, 2, 3, 5, 17, 100, 1000}
 
 // skip patterns: never, always, every j-th invocation, data dependent with a rate
-var c09Sigmas = []string{"never", "always", "every2", "every3", "every11", "rate5", "rate30", "rate50", "rate80", "rate91", "rate95", "first9of10"}
+var c09Sigmas = []string{"never", "always", "every2", "every3", "every11", "rate5", "rate30", "rate50", "rate80", "rate91", "rate95", "first9of10", "cleanup-always", "cleanup-rate50"}
 
 func c09Scenarios(cfg runCfg) []Scenario {
 	var out []Scenario
@@ -159,6 +159,15 @@ func c09Run(t *testing.T, sc Scenario, res *Result) {
 				skip = h%100 < uint64(pct)
 			case sigma == "first9of10":
 				skip = calls%10 != 0
+			case sigma == "cleanup-always", sigma == "cleanup-rate50":
+				// the case is made invalid by a Skip from a cleanup function, after its body returned
+				if sigma == "cleanup-always" || h%2 == 0 {
+					me := x
+					x.t.Cleanup(func() {
+						me.inv.SkipWhy = "skip from a cleanup"
+						me.t.Skip("skip from a cleanup")
+					})
+				}
 			}
 			if skip {
 				x.skip(sigma)
@@ -197,7 +206,7 @@ func c09Run(t *testing.T, sc Scenario, res *Result) {
 			if firstRandom < 0 {
 				firstRandom = i
 			}
-			if inv.Returned {
+			if inv.Returned && inv.SkipWhy == "" {
 				completed++
 			} else {
 				skipped++
@@ -348,6 +357,30 @@ func c09Run(t *testing.T, sc Scenario, res *Result) {
 		reached := false
 		var st *testing.T
 		variant := []string{"fatal", "errorf", "only-generated", "makecheck"}[sc.K]
+		if mix(sc.Seed, 7)%3 == 0 {
+			// a never-failing property under a real *testing.T without a test deadline (-test.timeout=0): exactly N cases
+			n := 0
+			var st *testing.T
+			after := false
+			t.Run("count", func(s *testing.T) {
+				st = s
+				f := func(rt *rapid.T) { n++; rapid.Uint8().Draw(rt, "v") }
+				if sc.K%2 == 0 {
+					rapid.Check(s, f)
+				} else {
+					rapid.MakeCheck(f)(s)
+				}
+				after = true
+			})
+			res.inc("checks_run")
+			res.inc("family:realT")
+			res.inc("realT_count_runs")
+			res.nontrivial("realT/count")
+			if n != 20 || st.Failed() || !after {
+				res.violate(sc, "c09/realT-count", fmt.Sprintf("under a real *testing.T (no deadline) a never-failing property ran on %d test cases, -rapid.checks=20 (failed=%v)", n, st.Failed()), nil)
+			}
+			return
+		}
 		prop := func(rt *rapid.T) {
 			v := rapid.Uint8().Draw(rt, "v")
 			switch variant {
